@@ -81,7 +81,16 @@ let cmd_rw r =
 let cmd_sig r = let n = rd_z r in let x = rd_q r in tok_of_q (fmt_sig n x)
 let cmd_int r = let x = rd_q r in tok_of_q (fmt_int x)
 
+(* file.scan  nlib (id trap delay dur wlast)*  nblocks (dur ids)*  ->  nprev prev*  ndone (id first last)* *)
+let cmd_scan r =
+  let lib = rd_list (fun r -> let id = rd_z r in let t = rd_bool r in let d = rd_q r in let du = rd_q r in
+                      let w = rd_q r in (id, { g_trap = t; g_delay = d; g_dur = du; g_wlast = w })) r in
+  let bs = rd_list (fun r -> let d = rd_q r in let ids = rd_list rd_z r in { b_dur = d; b_ids = ids }) r in
+  let (prev, fl) = scan_file lib bs in
+  pr_list tok_of_q prev ^ " " ^ pr_list (fun (id, (f, l)) -> tok_of_z id ^ " " ^ tok_of_q f ^ " " ^ tok_of_q l) fl
+
 let () =
+  Driver.register "file.scan" cmd_scan;
   Driver.register "file.write" cmd_write;
   Driver.register "file.read" cmd_read;
   Driver.register "file.rw" cmd_rw;
